@@ -140,6 +140,28 @@ def fill_tie(sdrv, c, r):
     return None, None
 
 
+def stale_usepr_case(rng, c, r):
+    """second factorization of the same matrix with the same column permutation, usepr = YES and a perm_r[] that is stale for two
+    columns k < k2 (their rows exchanged): every column before k finds its own diagonal row requested (kept), column k finds a
+    requested row that is no candidate (outside the structure of L's column k, fill included) -- the library gives up pivot reuse
+    and, at threshold 0, must fall back to the DIAGONAL (c02_usepr_dropped / c16_diagonal_pivot), so perm_r = perm_c again"""
+    n = c["n"]; L = r["L"]; pr = r["perm_r"]; cs = L["col_to_sup"]
+    inv = [0] * n
+    for i, k in enumerate(pr):
+        inv[k] = i
+    ks = list(range(n - 1)); rng.shuffle(ks)
+    for k in ks:
+        fs = L["sup_to_colbeg"][cs[k]]
+        rows = set(L["rowind"][L["rowind_colbeg"][fs]:L["rowind_colend"][fs]])
+        cand = [k2 for k2 in range(k + 1, n) if k2 not in rows]
+        if cand:
+            k2 = rng.choice(cand)
+            permr = list(pr); permr[inv[k]] = k2; permr[inv[k2]] = k
+            return dict(c, id=c["id"] + 100000, colperm=-1, permc=list(r["perm_c"]), permr=permr, usepr=1, kind=c["kind"] + "+usepr_stale",
+                        nprocs=rng.choice([1, 1, 2, 4]), stale=[k, k2])
+    return None
+
+
 def run(ctx):
     rng = ctx.rng
     ctx.cov["rule"] = ("p?gssvx, SymmetricMode=YES, MMD(A^T+A), threshold 0, diagonally dominant matrices (row dominant with the diagonal below 1 and NOT the column maximum; unsymmetric random pattern, "
@@ -148,7 +170,7 @@ def run(ctx):
     ctx.coq_properties()
     N = {"d": 60, "s": 16, "z": 16, "c": 12} if ctx.quick() else {"d": 800, "s": 200, "z": 200, "c": 200}
     sdrv = ctx.ocaml_model("symfill")
-    nok = 0; ntie = 0; ntie1 = 0
+    nok = 0; ntie = 0; ntie1 = 0; nstale = 0
     for prec in "dszc":
         cases = [make_case(rng, k + 1, prec, ctx.quick()) for k in range(N[prec])]
         exe = drv.build(ctx, prec, "hooks")
@@ -163,6 +185,7 @@ def run(ctx):
                     ctx.broken.append(brk)
                 elif bad is None:
                     ntie += 1; ntie1 += 1 if (c["ienv"][1] == 1 and c["nprocs"] == 1) else 0
+            c["_ok"] = bad is None
             if bad is None:
                 nok += 1
             else:
@@ -173,8 +196,28 @@ def run(ctx):
                     key = {"kind": "symmetric", "class": "presetmap_relaxed_out_of_sync"}
                 ctx.violation("C16 (%s, %s): %s" % (prec, c["kind"], bad),
                               {"case": c, "result": {k: v for k, v in r.items() if k not in ("L", "U", "events")}}, key=key)
+        # pivot reuse with a stale perm_r in symmetric mode (row-dominant matrices: the diagonal is not the column maximum)
+        follow = []
+        for c, r in zip(cases, res):
+            if c.pop("_ok", False) and c["kind"] == "rowdom" and c["n"] >= 3 and r.get("info") == 0 and "L" in r and r.get("perm_r") == r.get("perm_c") and "rowind" in r["L"]:
+                c2 = stale_usepr_case(rng, c, r)
+                if c2: follow.append(c2)
+        res2 = drv.run_grouped(exe, follow, par=max(1, vf.NCPU // 2), chunk=1) if follow else []
+        for c, r in zip(follow, res2):
+            ctx.count((prec, c["kind"], c["n"], tuple(c["rowind"][:40]), tuple(c["vals"][:6]), c["nprocs"], tuple(c["stale"])), nontrivial=True,
+                      kind="%s-%s" % (prec, c["kind"]))
+            bad = oracle(c, r)
+            if bad is None:
+                nstale += 1
+            else:
+                ctx.violation("C16 (%s, %s: usepr = YES, perm_r stale for columns %s): %s" % (prec, c["kind"], c["stale"], bad),
+                              {"case": c, "result": {k: v for k, v in r.items() if k not in ("L", "U", "events")}},
+                              key={"kind": "symmetric", "prec": prec, "what": "usepr_stale:" + bad[:26]})
         ctx.sample({k: cases[0][k] for k in ("prec", "kind", "n", "nprocs", "ienv")}, limit=8)
     ctx.cov["correspondence"]["symmetric_runs_ok"] = nok
+    ctx.cov["correspondence"]["stale_pivot_reuse_falls_back_to_diagonal"] = nstale
+    if nstale == 0:
+        ctx.broken.append("generator: no symmetric-mode run with pivot reuse and a stale perm_r was evaluated")
     ctx.cov["correspondence"]["colcnt_h_equal_to_elimination_model_of_AT_plus_A"] = ntie
     ctx.cov["correspondence"]["L_structure_equal_to_elimination_model_one_worker_no_relaxation"] = ntie1
     ctx.log("symmetric-mode runs ok: %d" % nok)
